@@ -87,10 +87,11 @@ def r91(ctx, api, wr):
     ctx.ob('R9.1', 'api._sort_part_names:summary-after-all-renames-under-write_fmd', ok and 'write_fmd' in tests, str(tests), api.loc(g))
     # merge
     mg = wr.func('merge')
-    body = [norm(s) for s in mg.body if not (isinstance(s, ast.Expr) and isinstance(s.value, ast.Constant))]
-    ctx.ob('R9.1', 'writer.merge:open-then-write-summary',
-           body == ['out = ParquetFile(file_list, verify_schema, open_with, root)', 'out._write_common_metadata(open_with)', 'return out'],
-           str(body), wr.loc(mg))
+    body = [norm(s) for s in mg.body if not (isinstance(s, ast.Expr) and isinstance(s.value, ast.Constant))
+            and not isinstance(s, ast.Pass)]
+    want = ['out = ParquetFile(file_list, verify_schema, open_with, root)', 'out._write_common_metadata(open_with)', 'return out']
+    pos = [body.index(x) if x in body else -1 for x in want]
+    ctx.ob('R9.1', 'writer.merge:open-then-write-summary', -1 not in pos and pos == sorted(pos), str(body), wr.loc(mg))
     wcm = api.func('ParquetFile._write_common_metadata')
     ctx.ob('R9.1', 'api._write_common_metadata:refuses-single-file-datasets',
            any(isinstance(s, ast.If) and norm(s.test) == "self.file_scheme == 'simple'" and isinstance(s.body[0], ast.Raise)
